@@ -11,14 +11,17 @@ EXPLANATION = (
     'a prefix), through the same and through a fresh Local instance. Known finding F11: names ending in ".tmp" are hidden from listings. '
     'E.remote runs the real S3-compatible and B2 adapters on the deterministic loop against fake services (vt/fakes.py: my reading of ListObjectsV2 paging with continuation tokens, '
     'b2_list_file_names with nextFileName, b2_hide_file with already_hidden/no_such_file, upload URLs, authorisation tokens) with listing pages of 1, 2 and 1000 objects. '
-    'Request signing is not checked (C16 is not applicable).'
+    'Request signing is not checked (C16 is not applicable). E.local / E.two (shared with C03): the directory tree at 8 instants inside Local.upload / upload_stream and with two uploaders of one name, read by a fresh Local: the previous object in full or the new one in full, never a partial object - the atomic-replace clause seen by a concurrent observer. '
 )
 ASSUMPTIONS = ['names: no name is a directory prefix of another; 7 names over two sets; payload sizes 1..7 and 3*chunk+1 with stream chunk 16',
                'S3/B2: the services are fakes written from the public API descriptions; real sockets, TLS and request signing are outside the claim']
 
 
 def obligations(tier):
-    return [
+    from . import c03 as _c03
+    # 'an upload atomically replaces the object': what an observer sees at any instant inside upload / upload_stream (C13_g: rename before flush)
+    atomic = [o for o in _c03.obligations(tier) if o.id in ('E.local', 'E.two')]
+    return atomic + [
         Ob('E.store', 'E', 'local backend == dict: exists/download/download_stream/list(prefix) after per-name action sequences, for every path spelling',
            '9 spellings x 7^4 action tuples = 21609', [L + 'upload', L + 'upload_stream', L + 'delete', L + 'list_files', L + 'exists', L + 'download_stream'],
            module=H, func='e_store', timeout=1800, shards=16),
